@@ -461,11 +461,13 @@ def coverage(tier, agg):
         "rule": "hostile filter language: %d filter lists = every member of a %d-string alphabet (quotes, backslash, NUL, SQL/Python metacharacters, "
                 "comment markers, bind-parameter syntax, format directives, non-BMP, lone surrogate, empty) and of a %d-value non-string alphabet "
                 "(lists, dicts, numbers out of range, booleans, null) at every filter position (ids, authors, kinds, since, until, limit, search, "
-                "#x name, #x value, tags, unknown key), alone, with a benign condition, and in 2-3 filter REQs; non-object filters. "
+                "#x name, #x value, tags, unknown key): each alone; %s of them before and after a benign filter; all pairs of every %s "
+                "plus a benign filter; 16 tag-carrying filters alone, in all ordered pairs and %s ordered triples of the first 7; non-object filters. "
                 "sem cases: store x all lists through the real REQ path, every returned event must be a stored one, verbatim, and satisfy a "
                 "permissive NIP-01 reading of at least one raw filter; SQL engine errors are violations. text cases: statement / generated code "
                 "skeleton equals that of the benign twin (SQLite, PostgreSQL branch, LMDB residual matcher) and every string literal has provenance." % (
-                    len(_lists(tier)), len(STR_ALPHA), len(NONSTR)),
+                    len(_lists(tier)), len(STR_ALPHA), len(NONSTR), "each" if tier == "thorough" else "every 7th",
+                    "23rd" if tier == "thorough" else "97th", "all" if tier == "thorough" else "every 5th of the"),
         "backends": ["sql", "kv", "pg(text only)"],
     }
 
